@@ -396,16 +396,20 @@ impl<S: USet> Eng<S> {
     }
     pub fn op_drop(&mut self, i: usize) {
         if self.slots[i].is_some() {
+            alloc::ev_begin();
             self.slots[i] = None;
+            let a = alloc::ev_take().unwrap_or_default();
             self.oracle[i].clear();
-            self.emit(&format!("drop {}", i));
+            self.emit(&format!("drop {}{}", i, a));
             self.post_check();
         }
     }
     pub fn op_wcb(&mut self, i: usize, cap: usize, bits: u64) {
         self.slots[i] = None;
         let pushed = self.script(i);
+        alloc::ev_begin();
         let r = catch_unwind(AssertUnwindSafe(|| alloc::under_test(|| S::wcb(cap, bits))));
+        let ev = alloc::ev_take().unwrap_or_default();
         let d = self.script_done(pushed);
         match r {
             Ok(s) => {
@@ -418,7 +422,7 @@ impl<S: USet> Eng<S> {
                     self.emit(&format!("new {}", i));
                     self.hinted[i] = false;
                 } else {
-                    self.emit(&format!("wcb {} {} {}{} R {}", i, cap, bits, d, rp));
+                    self.emit(&format!("wcb {} {} {}{}{} R {}", i, cap, bits, ev, d, rp));
                 }
                 self.bump("op:wcb");
                 self.check_set(i, "with_capacity_and_bits");
@@ -430,7 +434,9 @@ impl<S: USet> Eng<S> {
     pub fn op_wcm(&mut self, i: usize, cap: usize, mx: u64) {
         self.slots[i] = None;
         let pushed = self.script(i);
+        alloc::ev_begin();
         let r = catch_unwind(AssertUnwindSafe(|| alloc::under_test(|| S::wcm(cap, mx))));
+        let ev = alloc::ev_take().unwrap_or_default();
         let d = self.script_done(pushed);
         match r {
             Ok(s) => {
@@ -443,7 +449,7 @@ impl<S: USet> Eng<S> {
                     self.emit(&format!("new {}", i));
                     self.hinted[i] = false;
                 } else {
-                    self.emit(&format!("wcm {} {} {}{} R {}", i, cap, mx, d, rp));
+                    self.emit(&format!("wcm {} {} {}{}{} R {}", i, cap, mx, ev, d, rp));
                 }
                 self.bump("op:wcm");
                 self.check_set(i, "with_capacity_and_max");
@@ -458,7 +464,9 @@ impl<S: USet> Eng<S> {
         }
         self.slots[i] = None;
         let before = self.repr_full(j);
+        alloc::ev_begin();
         let s = alloc::under_test(|| S::wco(self.slots[j].as_ref().unwrap()));
+        let ev = alloc::ev_take().unwrap_or_default();
         if self.repr_full(j) != before {
             self.fail("C07,C18", "with_capacity_of changed its argument".into());
         }
@@ -470,7 +478,7 @@ impl<S: USet> Eng<S> {
         self.hw[i] = self.hw[j];
         self.hinted[i] = self.hinted[j];
         let rp = self.repr(i);
-        self.emit(&format!("wco {} {} R {}", i, j, rp));
+        self.emit(&format!("wco {} {}{} R {}", i, j, ev, rp));
         self.bump("op:wco");
         self.post_check();
     }
@@ -482,13 +490,19 @@ impl<S: USet> Eng<S> {
         let dst = if self.rng.chance(1, 2) { self.slots[i].take() } else { None };
         self.slots[i] = None;
         let before = self.repr_full(j);
+        let mut ev = String::new();
         let s = match dst {
             Some(mut d) => {
                 self.bump("op:clone_from");
                 alloc::under_test(|| d.clone_from(self.slots[j].as_ref().unwrap()));
                 d
             }
-            None => alloc::under_test(|| self.slots[j].as_ref().unwrap().clone()),
+            None => {
+                alloc::ev_begin();
+                let c = alloc::under_test(|| self.slots[j].as_ref().unwrap().clone());
+                ev = alloc::ev_take().unwrap_or_default();
+                c
+            }
         };
         if self.repr_full(j) != before {
             self.fail("C07,C18", "clone changed the original".into());
@@ -506,7 +520,7 @@ impl<S: USet> Eng<S> {
         self.hw[i] = self.hw[j];
         self.hinted[i] = self.hinted[j];
         let rp = self.repr(i);
-        self.emit(&format!("clone {} {} R {}", i, j, rp));
+        self.emit(&format!("clone {} {}{} R {}", i, j, ev, rp));
         self.bump(&format!("op:clone:{}", self.tag(j)));
         self.post_check();
     }
@@ -515,7 +529,9 @@ impl<S: USet> Eng<S> {
         let v = &v[..];
         self.slots[i] = None;
         let pushed = self.script_n(i, 6000);
+        alloc::ev_begin();
         let r = catch_unwind(AssertUnwindSafe(|| alloc::under_test(|| S::collect(v))));
+        let ev = alloc::ev_take().unwrap_or_default();
         let d = self.script_done(pushed);
         match r {
             Ok(s) => {
@@ -528,7 +544,7 @@ impl<S: USet> Eng<S> {
                 for x in v {
                     write!(l, " {}", S::enc(*x)).unwrap();
                 }
-                self.emit(&format!("{}{} R {}", l, d, rp));
+                self.emit(&format!("{}{}{} R {}", l, ev, d, rp));
                 self.bump(&format!("op:col>{}", self.tag(i)));
                 let t = self.tag(i);
                 self.sigpush(&format!("c{}", t));
@@ -546,7 +562,9 @@ impl<S: USet> Eng<S> {
         let v: Vec<u64> = v.iter().map(|&x| S::norm(x)).collect();
         let v = &v[..];
         let pushed = self.script_n(i, 6000);
+        alloc::ev_begin();
         let r = catch_unwind(AssertUnwindSafe(|| alloc::under_test(|| self.slots[i].as_mut().unwrap().extend(v))));
+        let ev = alloc::ev_take().unwrap_or_default();
         let d = self.script_done(pushed);
         match r {
             Ok(()) => {
@@ -558,7 +576,7 @@ impl<S: USet> Eng<S> {
                 for x in v {
                     write!(l, " {}", S::enc(*x)).unwrap();
                 }
-                self.emit(&format!("{}{} R {}", l, d, rp));
+                self.emit(&format!("{}{}{} R {}", l, ev, d, rp));
                 self.bump("op:ext");
                 self.check_set(i, "extend");
                 self.check_members(i, "C05", "extend");
@@ -586,13 +604,15 @@ impl<S: USet> Eng<S> {
         let v = S::norm(v);
         let before = self.tag(i);
         let pushed = self.script(i);
+        alloc::ev_begin();
         let r = catch_unwind(AssertUnwindSafe(|| alloc::under_test(|| self.slots[i].as_mut().unwrap().ins(v))));
+        let ev = alloc::ev_take().unwrap_or_default();
         let d = self.script_done(pushed);
         let want = self.oracle[i].insert(v);
         let rp = self.repr(i);
         match r {
             Ok(b) => {
-                self.emit(&format!("ins {} {} {}{} R {}", i, S::enc(v), b as u8, d, rp));
+                self.emit(&format!("ins {} {} {}{}{} R {}", i, S::enc(v), b as u8, ev, d, rp));
                 if b != want {
                     self.fail("C01,C02", format!("insert({}) returned {} but the value was {}", v, b, if want { "absent" } else { "present" }));
                 }
@@ -614,13 +634,15 @@ impl<S: USet> Eng<S> {
         let v = S::norm(v);
         let before = self.tag(i);
         let pushed = self.script(i);
+        alloc::ev_begin();
         let r = catch_unwind(AssertUnwindSafe(|| alloc::under_test(|| self.slots[i].as_mut().unwrap().rem(v))));
+        let ev = alloc::ev_take().unwrap_or_default();
         let d = self.script_done(pushed);
         let want = self.oracle[i].remove(&v);
         let rp = self.repr(i);
         match r {
             Ok(b) => {
-                self.emit(&format!("rem {} {} {}{} R {}", i, S::enc(v), b as u8, d, rp));
+                self.emit(&format!("rem {} {} {}{}{} R {}", i, S::enc(v), b as u8, ev, d, rp));
                 if b != want {
                     self.fail("C01,C02", format!("remove({}) returned {} but the value was {}", v, b, if want { "present" } else { "absent" }));
                 }
@@ -840,6 +862,7 @@ impl<S: USet> Eng<S> {
         let own = own && S::HAS_OWN_OPS;
         let (bi, bj) = (self.repr_full(i), self.repr_full(j));
         let pushed = self.script_n(i, 6000);
+        alloc::ev_begin();
         let r = catch_unwind(AssertUnwindSafe(|| {
             alloc::under_test(|| {
                 let (a, b) = (self.slots[i].as_ref().unwrap(), self.slots[j].as_ref().unwrap());
@@ -851,6 +874,7 @@ impl<S: USet> Eng<S> {
                 }
             })
         }));
+        let ev = alloc::ev_take().unwrap_or_default();
         let d = self.script_done(pushed);
         let name = if union { "uni" } else { "dif" };
         match r {
@@ -861,7 +885,7 @@ impl<S: USet> Eng<S> {
                 self.hw[k] = self.hw[i].max(self.hw[j]).max(self.oracle[k].len());
                 self.hinted[k] = self.hinted[i] || self.hinted[j];
                 let rp = self.repr(k);
-                self.emit(&format!("{} {} {} {} {}{} R {}", name, k, i, j, if own { "own" } else if !S::HAS_OWN_OPS && !union { "ref64" } else if !S::HAS_OWN_OPS { "ref64u" } else { "ref" }, d, rp));
+                self.emit(&format!("{} {} {} {} {}{}{} R {}", name, k, i, j, if own { "own" } else if !S::HAS_OWN_OPS && !union { "ref64" } else if !S::HAS_OWN_OPS { "ref64u" } else { "ref" }, if S::TYPED { "" } else { &ev }, d, rp));
                 self.check_set(k, name);
                 self.check_members(k, "C09", if union { "union" } else { "difference" });
                 if self.repr_full(i) != bi || self.repr_full(j) != bj {
